@@ -90,6 +90,9 @@ const baseMs = int64(1_700_000_100_000) // multiple of 15 s (the range controlle
 // promDBVariant: 0 = promDB, 1 = the same series with every sample 2.5 s later (no sample coincides with an
 // evaluation time or a window edge of the grid any more, other samples fall into each window).
 func promDBVariant(v int) *MetricDB {
+	if v == 2 {
+		return promDBMultiDay()
+	}
 	db := promDB()
 	if v == 1 {
 		for i := range db.Series {
@@ -99,6 +102,62 @@ func promDBVariant(v int) *MetricDB {
 		}
 	}
 	return db
+}
+
+// ---- several selectors of one expression looking at different calendar days ----
+
+// midnightMs is 2023-11-17T00:00:00Z: the evaluation times of the multi-day part lie around it.
+const midnightMs = int64(1_700_179_200_000)
+
+// promDBMultiDay: series that have samples (and therefore index rows) only on some of the days the selectors of
+// one expression look at: pod=a only two days ago, pod=b two days ago and around midnight, pod=c only around
+// midnight (both sides of it), pod=d only a week ago; m2 one hour and one day ago.  One sample per minute in a
+// +-10 min window around each anchor.
+func promDBMultiDay() *MetricDB {
+	const day, hour, min = int64(86_400_000), int64(3_600_000), int64(60_000)
+	around := func(base float64, anchors ...int64) []model.Sample {
+		var out []model.Sample
+		for ai, a := range anchors {
+			for k := int64(-10); k <= 10; k++ {
+				out = append(out, model.Sample{TimestampMs: midnightMs + a + k*min + int64(ai)*7, Value: base + float64(ai)*100 + float64(k+10)})
+			}
+		}
+		sort.Slice(out, func(i, j int) bool { return out[i].TimestampMs < out[j].TimestampMs })
+		return out
+	}
+	return &MetricDB{Series: []MSeries{
+		{Labels: map[string]string{"__name__": "up", "pod": "a"}, Samples: around(1000, -2*day)},
+		{Labels: map[string]string{"__name__": "up", "pod": "b"}, Samples: around(2000, -2*day, 0)},
+		{Labels: map[string]string{"__name__": "up", "pod": "c"}, Samples: around(3000, 0)},
+		{Labels: map[string]string{"__name__": "up", "pod": "d"}, Samples: around(4000, -7*day)},
+		{Labels: map[string]string{"__name__": "up", "pod": "e"}, Samples: around(5000, -1*day, -hour)},
+		{Labels: map[string]string{"__name__": "m2", "pod": "a"}, Samples: around(6000, -hour, -day)},
+	}}
+}
+
+func promCasesMultiDay(thorough bool) []promCase {
+	exprs := []string{
+		`up or up offset 2d`, `up offset 2d or up`, `up - on(pod) up offset 2d`, `up or up offset 1h`, `up or up offset 1d`,
+		`up or up offset 1w`, `up offset 1w or up offset 1d or up`, `up unless up offset 2d`, `count(up) + count(up offset 2d)`,
+		`max_over_time(up[3d])`, `up - on(pod) max_over_time(up[3d])`, `max_over_time(up[1h]) or max_over_time(up[2h] offset 2d)`,
+		`sum_over_time(up[10m:1m] offset 2d) or up`, `up or m2 offset 1d`, `m2 offset 1h or up offset 2d`,
+		`up + on(pod) group_left m2 offset 1d`, `up`, `up offset 2d`,
+	}
+	instants := []int64{-180_000, 0, 180_000}
+	if thorough {
+		exprs = append(exprs, `up offset 1d unless up`, `min_over_time(up[8d])`, `count_over_time(up[2d]) or count_over_time(up[1d] offset 6d)`,
+			`up and on(pod) up offset 2d`, `avg_over_time(up[25h]) - on(pod) up`, `up offset 2d - on(pod) up offset 1w`)
+		instants = []int64{-600_000, -180_000, -1, 0, 1, 180_000, 600_000}
+	}
+	var out []promCase
+	for _, e := range exprs {
+		for _, t := range instants {
+			out = append(out, promCase{Part: "promql", DB: 2, Expr: e, Instant: true, StartMs: midnightMs + t})
+		}
+		// a range query across midnight (start on a multiple of 15 s, step below the down-sampling threshold)
+		out = append(out, promCase{Part: "promql", DB: 2, Expr: e, StartMs: midnightMs - 120_000, EndMs: midnightMs + 120_000, StepMs: 10_000})
+	}
+	return out
 }
 
 func promDB() *MetricDB {
@@ -446,10 +505,23 @@ func explainRows(db *MetricDB, calls []recCall) []string {
 				}
 			}
 		}
+		storedSets := map[string]bool{}
+		for _, s := range db.Series {
+			storedSets[s.lset().String()] = true
+		}
 		for k := range gotBy {
+			if !storedSets[k] {
+				// a series handed to the engine under a label set no stored series carries (e.g. an empty one)
+				causes["series_under_foreign_label_set"] = true
+				continue
+			}
 			if !refKeys[k] {
 				extra = true
 			}
+		}
+		if causes["series_under_foreign_label_set"] {
+			// the series missing under their own label set are the ones that arrived under the foreign one
+			unexplainedMissing = false
 		}
 		if unexplainedMissing || extra {
 			// explain by matcher rules on the label sets of series that have samples inside (Start, End]
@@ -527,6 +599,108 @@ func checkPromQL(r *ev.Run, viol *violations) {
 		}
 		runPromCases(r, viol, db, tables, cases)
 	}
+	// database 2: selectors of one expression on different calendar days (one Querier serves all Selects of a query)
+	db := promDBVariant(2)
+	tables, err := db.Tables()
+	if err != nil {
+		ev.Fatal("building tables: %v", err)
+	}
+	runPromCases(r, viol, db, tables, promCasesMultiDay(r.Thorough()))
+	checkSelectTwice(r, viol, db, tables)
+}
+
+// checkSelectTwice: two Select calls with different windows on ONE Querier (what the engine does for an expression
+// with two selectors), every ordered pair of windows from a menu of days; each answer is compared, series by
+// series (labels and samples), with the reference selection for its own hints.
+func checkSelectTwice(r *ev.Run, viol *violations, db *MetricDB, tables *chsim.DB) {
+	const day, min = int64(86_400_000), int64(60_000)
+	anchors := []int64{0, -day, -2 * day, -7 * day}
+	names := []string{"up", "m2"}
+	real := newRealStore(tables)
+	n := 0
+	for _, a1 := range anchors {
+		for _, a2 := range anchors {
+			for _, n1 := range names {
+				for _, n2 := range names {
+					q, err := real.queryable(context.Background()).Querier(context.Background(), 0, 0)
+					if err != nil {
+						ev.Fatal("Querier: %v", err)
+					}
+					c := promCase{Part: "promql", DB: 2, Expr: fmt.Sprintf("select %s@%dd then %s@%dd on one querier", n1, a1/day, n2, a2/day)}
+					var causes []string
+					var details []string
+					for k, sel := range []struct {
+						name string
+						a    int64
+					}{{n1, a1}, {n2, a2}} {
+						h := &storage.SelectHints{Start: midnightMs + sel.a - 5*min, End: midnightMs + sel.a + 5*min}
+						ms := []*labels.Matcher{labels.MustNewMatcher(labels.MatchEqual, "__name__", sel.name)}
+						set := q.Select(false, h, ms...)
+						ss, ok := set.(*model.SeriesSet)
+						if !ok {
+							ev.Fatal("Select returned %T", set)
+						}
+						if ss.Error != nil {
+							causes = append(causes, "select_error")
+							details = append(details, ss.Error.Error())
+							continue
+						}
+						want := refSelect(db, h, ms)
+						wantBy := map[string][]model.Sample{}
+						for _, s := range want {
+							wantBy[s.Labels.String()] = s.Samples
+						}
+						seen := map[string]bool{}
+						for _, s := range ss.Series {
+							key := s.Labels().String()
+							seen[key] = true
+							w, ok := wantBy[key]
+							switch {
+							case !ok:
+								causes = append(causes, "series_under_foreign_label_set")
+								details = append(details, fmt.Sprintf("select #%d returns a series under %s, which no stored series selected by it carries", k+1, key))
+							case !samplesEqual(s.Samples, w):
+								causes = append(causes, "samples_of_selected_series")
+								details = append(details, fmt.Sprintf("select #%d: %s carries %d samples, stored in the window: %d", k+1, key, len(s.Samples), len(w)))
+							}
+						}
+						for key := range wantBy {
+							if !seen[key] {
+								causes = append(causes, "selected_series_missing")
+								details = append(details, fmt.Sprintf("select #%d does not return %s", k+1, key))
+							}
+						}
+					}
+					n++
+					r.AddEval(1)
+					r.TracesValidated++
+					r.Transitions += 2
+					r.Distinct("select_twice|" + c.Expr)
+					if len(causes) == 0 {
+						r.Outcome("promql:select_twice_equal")
+						continue
+					}
+					r.Outcome("promql:select_twice_mismatch")
+					sort.Strings(causes)
+					viol.add("promql:"+strings.Join(dedup(causes), "+"), strings.Join(details, "; ")+" — "+c.Expr, c)
+				}
+			}
+		}
+	}
+	if len(real.backend.Unsupported) > 0 {
+		ev.Fatal("chsim could not execute %.400s", real.backend.Unsupported[0])
+	}
+	r.Extra["select_twice_pairs"] = n
+}
+
+func dedup(s []string) []string {
+	var out []string
+	for i, x := range s {
+		if i == 0 || x != s[i-1] {
+			out = append(out, x)
+		}
+	}
+	return out
 }
 
 func runPromCases(r *ev.Run, viol *violations, db *MetricDB, tables *chsim.DB, cases []promCase) {
